@@ -109,6 +109,9 @@ def corpus():
     cs.append(mk_score(coords[:2], [2, n_ // 2] if n_ % 2 == 0 else [n_], data[:2], None, None, "vector", "corpus-score-vector-2d"))
     cs.append(mk_tts(coords, shape2d, data, weights, [2, 2], 0.5, 5, "corpus-tts-block"))
     cs.append({"fn": "splinecv", "kind": "corpus-splinecv", "args": [coords[:2], data[0], None, [1e-3, 1e-1, 1e1], 3], "op": "splinecv_select [ [ 0 ] ]"})
+    for sc in ("neg_mean_squared_error", "medae-loss"):
+        cs.append({"fn": "splinecv", "kind": "corpus-splinecv-loss-scorer", "args": [coords[:2], data[0], None, [1e-3, 1e-1, 1e1], 3, sc],
+                   "op": "splinecv_select [ [ 0 ] ]", "key": "corpus-splinecv:" + sc})
     return cs
 
 
@@ -160,8 +163,10 @@ def generate(rng, tier):
                              "tts-block" if bs else "tts"))
         else:
             dampings = sorted(rng.sample([1e-4, 1e-3, 1e-2, 1e-1, 1.0, 10.0], rng.randint(2, 3)))
-            cs.append({"fn": "splinecv", "kind": "splinecv", "args": [coords[:2], data[0], weights[0] if weights else None, dampings, rng.randint(2, 3)],
-                       "op": "splinecv_select [ [ 0 ] ]"})
+            scoring = rng.choice(SCORERS + ["medae-loss", "neg_root_mean_squared_error"])
+            cs.append({"fn": "splinecv", "kind": "splinecv" + ("" if scoring in (None, "r2") else "-loss-scorer"),
+                       "args": [coords[:2], data[0], weights[0] if weights else None, dampings, rng.randint(2, 3), scoring],
+                       "op": "splinecv_select [ [ 0 ] ]", "key": repr((coords[:2], data[0], dampings, scoring))})
     return cs
 
 
@@ -294,7 +299,11 @@ def impl(case):
 
 
 def _splinecv(a):
-    coords, data, weights, dampings, k = a
+    coords, data, weights, dampings, k = a[:5]
+    scoring = a[5] if len(a) > 5 else None
+    if scoring == "medae-loss":          # a user-made loss scorer (greater_is_better=False): scikit-learn negates it, highest is still best
+        from sklearn.metrics import make_scorer, median_absolute_error
+        scoring = make_scorer(median_absolute_error, greater_is_better=False)
     cs = tuple(np.array(c) for c in coords)
     d = np.array(data)
     w = None if weights is None else np.array(weights)
@@ -303,14 +312,14 @@ def _splinecv(a):
         with warnings.catch_warnings():
             warnings.simplefilter("ignore")
             cv = KFold(n_splits=k, shuffle=True, random_state=0)
-            scv = vd.SplineCV(dampings=dampings, cv=cv).fit(cs, d, w)
-            scv_lazy = vd.SplineCV(dampings=dampings, cv=cv, delayed=True).fit(cs, d, w)
+            scv = vd.SplineCV(dampings=dampings, cv=cv, scoring=scoring).fit(cs, d, w)
+            scv_lazy = vd.SplineCV(dampings=dampings, cv=cv, delayed=True, scoring=scoring).fit(cs, d, w)
             lazy_scores = [float(v) for v in dask.compute(*scv_lazy.scores_, scheduler="synchronous")]      # documented: Delayed objects
             if not np.allclose(lazy_scores, scv.scores_, rtol=1e-12, atol=0) or scv_lazy.damping_ != scv.damping_:
                 raise RuntimeError(f"SplineCV(delayed=True) differs from the serial run: scores {lazy_scores} vs {list(scv.scores_)}")
             means = []
             for dm in dampings:
-                sc = vd.cross_val_score(vd.Spline(damping=dm), cs, d, weights=w, cv=cv)
+                sc = vd.cross_val_score(vd.Spline(damping=dm), cs, d, weights=w, cv=cv, scoring=scoring)
                 means.append(float(np.mean(sc)))
             best = int(np.argmax(means))
             ref = vd.Spline(damping=dampings[best]).fit(cs, d, w)
